@@ -202,6 +202,10 @@ func (in *Interp) indexAddr(x Value, idx *Term) Value {
 			if !in.decide(in.F.ULt(i64, xv.slen)) {
 				in.goPanicRuntime("index out of range [i] with symbolic length")
 			}
+			// in range of the real slice; it must also be inside the modelled cells
+			if !in.decide(in.F.ULt(i64, in.F.Const(64, uint64(xv.len)))) {
+				panic(&pathEnd{kind: "unsupported", msg: "index beyond the modelled cells of a symbolic-length slice"})
+			}
 		}
 	default:
 		panic(engineErr(fmt.Sprintf("indexAddr on %T", x)))
@@ -1259,6 +1263,24 @@ func (in *Interp) callBuiltin(caller *Frame, b *ssa.Builtin, args []Value, site 
 			for _, t := range in.strBytes(y) {
 				src = append(src, t)
 			}
+		}
+		if dst.slen != nil {
+			// copy into a symbolic-length destination: count = min(slen, len(src));
+			// cell i receives src[i] exactly when i < slen.
+			if len(src) > dst.len {
+				panic(&pathEnd{kind: "unsupported", msg: "copy source longer than the modelled cells of a symbolic-length slice"})
+			}
+			cells := dst.obj.val.(*ArrayV).e[dst.off : dst.off+dst.len]
+			for i, sv := range src {
+				st, ok1 := sv.(*Term)
+				dt, ok2 := cells[i].(*Term)
+				if !ok1 || !ok2 {
+					panic(&pathEnd{kind: "unsupported", msg: "copy of non-scalar elements into a symbolic-length slice"})
+				}
+				cells[i] = F.Ite(F.ULt(F.Const(64, uint64(i)), dst.slen), st, dt)
+			}
+			ls := F.Const(64, uint64(len(src)))
+			return F.Ite(F.ULt(dst.slen, ls), dst.slen, ls)
 		}
 		n := dst.len
 		if len(src) < n {
